@@ -6,6 +6,7 @@ import LinfaSpec.Proofs.PcaMatrix
 import Mathlib.Algebra.BigOperators.Fin
 import Mathlib.Algebra.Order.Field.Basic
 import Mathlib.Tactic.Positivity
+import Mathlib.Tactic.Abel
 
 namespace LinfaSpec.Pca
 open Matrix LinfaSpec.PcaMatrix
@@ -205,5 +206,104 @@ theorem whiten_spec [Transc α] (nS : Nat) (V : List (List α)) (σ : List α) (
       rw [getD_lt _ _ _ (by simp [hi1, hi2]), List.getElem_zipWith]
     rw [hrow, getD_lt _ _ _ (by simp [hw]), List.getElem_map, getD_lt _ _ _ hi1,
       getD_lt _ _ _ hi2, getD_lt _ _ _ (by omega), mul_comm]
+
+/-! ### column mean in every memory layout -/
+
+theorem foldl_add_eq (l : List α) (a : α) : l.foldl (· + ·) a = a + l.sum := by
+  induction l generalizing a with
+  | nil => simp
+  | cons x xs ih => simp [List.foldl_cons, ih, add_assoc]
+
+theorem unrolled8_spec (xs : List α) (q : α × α × α × α × α × α × α × α) :
+    let r := unrolled8 xs q
+    r.1.1 + r.1.2.1 + r.1.2.2.1 + r.1.2.2.2.1 + r.1.2.2.2.2.1 + r.1.2.2.2.2.2.1 + r.1.2.2.2.2.2.2.1
+        + r.1.2.2.2.2.2.2.2 + r.2.sum
+      = q.1 + q.2.1 + q.2.2.1 + q.2.2.2.1 + q.2.2.2.2.1 + q.2.2.2.2.2.1 + q.2.2.2.2.2.2.1
+        + q.2.2.2.2.2.2.2 + xs.sum := by
+  fun_induction unrolled8 xs q with
+  | case1 x0 x1 x2 x3 x4 x5 x6 x7 rest p0 p1 p2 p3 p4 p5 p6 p7 ih =>
+    simp only [] at ih ⊢
+    rw [ih]
+    simp only [List.sum_cons]
+    abel
+  | case2 xs q h => simp
+
+/-- ndarray's eightfold unrolled sum is the sum (real-arithmetic semantics) -/
+theorem ndSum_eq_sum (xs : List α) : ndSum xs = xs.sum := by
+  have h := unrolled8_spec xs (0, 0, 0, 0, 0, 0, 0, 0)
+  simp only [] at h
+  unfold ndSum
+  generalize unrolled8 xs (0, 0, 0, 0, 0, 0, 0, 0) = r at h
+  obtain ⟨⟨p0, p1, p2, p3, p4, p5, p6, p7⟩, rest⟩ := r
+  simp only [foldl_add_eq]
+  simp only [zero_add] at h ⊢
+  rw [← h]
+  abel
+
+/-- `colMean` is the column sum over `n`: length `p`, entry `j` = `(Σ_i X_i[j]) / n` -/
+theorem colMean_spec (X : List (List α)) (n p : Nat) (hX : Shape X n p) :
+    (colMean p X).length = p ∧
+    ∀ j : Fin p, (colMean p X).getD j 0 = (∑ i : Fin n, (X.getD i []).getD j 0) / (n : α) := by
+  obtain ⟨hXl, hXw⟩ := hX
+  have h := foldl_vadd X p hXw (List.replicate p 0) (by simp)
+  unfold colMean
+  refine ⟨by simp [h.1], ?_⟩
+  intro j
+  have hj : (j : Nat) < (X.foldl vadd (List.replicate p 0)).length := by rw [h.1]; exact j.2
+  rw [getD_lt _ _ _ (by simpa using hj), List.getElem_map, ← getD_lt _ _ 0 hj, h.2 j,
+    replicate_getD, zero_add, hXl]
+
+theorem column_sum (X : List (List α)) (n : Nat) (hX : X.length = n) (j : Nat) :
+    (column X j).sum = ∑ i : Fin n, (X.getD i []).getD j 0 := by
+  rw [sum_eq_fin_sum _ n (by simp [column, hX])]
+  apply Finset.sum_congr rfl
+  intro i _
+  have hi : (i : Nat) < X.length := by omega
+  unfold column
+  rw [getD_lt _ _ _ (by simpa using hi), List.getElem_map, getD_lt _ _ _ hi]
+
+/-- over a field the column mean does not depend on the memory layout: the unrolled lane sums of a
+Fortran-order matrix and the row-by-row additions give the same list -/
+theorem colMeanL_eq_colMean (lay : Layout) (X : List (List α)) (n p : Nat) (hX : Shape X n p) :
+    colMeanL lay p X = colMean p X := by
+  cases lay with
+  | f =>
+    simp only [colMeanL]
+    split
+    · obtain ⟨hl, hv⟩ := colMean_spec X n p hX
+      apply List.ext_getElem
+      · simp [hl]
+      · intro j h1 h2
+        have hjp : j < p := by simpa using h1
+        rw [List.getElem_map, List.getElem_range, ndSum_eq_sum, column_sum X n hX.1 j]
+        have := hv ⟨j, hjp⟩
+        rw [getD_lt _ _ _ h2] at this
+        rw [this, hX.1]
+    · rfl
+  | c => rfl
+  | cStrided => rfl
+  | fStrided => rfl
+
+/-- **the projected training data is centred**: when the stored mean is the column mean of the
+training matrix (what `fit` stores, in every layout) every coordinate of `predict(X)` sums to zero
+over the training rows — so the scatter `ZᵀZ` of the theorems in `Props/C18.lean` is `(n-1)` times
+the sample covariance of the projection. -/
+theorem transform_colsum_zero (m : Model α) (X : List (List α)) (n k p : Nat)
+    (hX : Shape X n p) (hW : Shape m.embedding k p) (hmean : m.mean = colMean p X)
+    (hn : (n : α) ≠ 0) (j : Fin k) :
+    ∑ i : Fin n, toM (transform m X) n k i j = 0 := by
+  obtain ⟨hl, hv⟩ := colMean_spec X n p hX
+  have hμ : m.mean.length = p := by rw [hmean]; exact hl
+  rw [transform_toM m X n k p hX hW hμ]
+  simp only [transformM, Matrix.mul_apply, Matrix.sub_apply, Matrix.transpose_apply, rowConst,
+    Matrix.of_apply, toM, toV]
+  rw [Finset.sum_comm]
+  have : ∀ l : Fin p, ∑ i : Fin n, ((X.getD i []).getD l 0 - m.mean.getD l 0) *
+      (m.embedding.getD j []).getD l 0 = 0 := by
+    intro l
+    rw [← Finset.sum_mul, Finset.sum_sub_distrib, hmean, hv l]
+    simp only [Finset.sum_const, Finset.card_univ, Fintype.card_fin, nsmul_eq_mul]
+    rw [mul_div_cancel₀ _ hn, sub_self, zero_mul]
+  exact Finset.sum_eq_zero fun l _ => this l
 
 end LinfaSpec.Pca
